@@ -765,7 +765,14 @@ fn trim_pixmap(
 
     let limit = tiny_skia::IntRect::from_xywh(0, 0, pixmap.width(), pixmap.height()).unwrap();
 
-    let content_area = content_area.transform(transform)?.to_int_rect();
+    // Same as `to_int_rect`, which panics when the result doesn't fit into i32.
+    let content_area = content_area.transform(transform)?;
+    let content_area = tiny_skia::IntRect::from_xywh(
+        content_area.x().floor() as i32,
+        content_area.y().floor() as i32,
+        std::cmp::max(1, content_area.width().ceil() as u32),
+        std::cmp::max(1, content_area.height().ceil() as u32),
+    )?;
     let content_area = fit_to_rect(content_area, limit)?;
     let content_area = tiny_skia::IntRect::from_xywh(
         content_area.x(),
